@@ -75,8 +75,23 @@ structure SlotRel (ma : Store) (mb : List V) (sa : Slot Bytes) (sb : Slot V) : P
   val : ∃ v, Good c fp v ∧ mb[sb.h]? = some v ∧ sb.snap = some v ∧
         ma[sa.h]? = some (encBytes c sa.fmt v) ∧ sa.snap = encBytes c sa.fmt v
 
+/-- `Good`, also after the original has been mutated by `mv` -/
+def GoodC (v : V) : Prop := Good c fp v ∧ ∀ v', setFirstV v = some v' → Good c fp v'
+
+theorem setFirstV_idem {v v' : V} (h : setFirstV v = some v') : setFirstV v' = some v' := by
+  unfold setFirstV at h
+  split at h
+  · cases h; rfl
+  · cases h; rfl
+  · cases h
+
+theorem goodC_setFirst {v v' : V} (hg : GoodC c fp v) (h : setFirstV v = some v') : GoodC c fp v' :=
+  ⟨hg.2 v' h, fun v'' h2 => by rw [setFirstV_idem h] at h2; cases h2; exact hg.2 v' h⟩
+
 structure Rel (a : St Store Bytes) (b : St (List V) V) : Prop where
   results : a.results = b.results
+  vals : a.vals = b.vals
+  good : ∀ l ∈ a.vals, ∀ v ∈ l, GoodC c fp v
   mlen : a.m.length = b.m.length
   len : a.slots.length = b.slots.length
   slot : ∀ (k : Nat) sa sb, a.slots[k]? = some sa → b.slots[k]? = some sb → SlotRel c fp a.m b.m sa sb
@@ -90,8 +105,10 @@ theorem slotRel_mono {ma : Store} {mb : List V} {sa : Slot Bytes} {sb : Slot V} 
   · have : sa.h < ma.length := (List.getElem?_eq_some_iff.mp ha).1
     rw [List.getElem?_append_left this]; exact ha
 
-theorem rel_init : Rel c fp (St.init (machine c fp)) (St.init valueMachine) :=
-  ⟨rfl, rfl, rfl, by intro k sa sb h; simp [St.init] at h⟩
+theorem rel_init (vals : List V) (hg : ∀ v ∈ vals, GoodC c fp v) :
+    Rel c fp (St.init (machine c fp) vals) (St.init valueMachine vals) :=
+  ⟨rfl, rfl, by intro l hl v hv; simp [St.init] at hl; subst hl; exact hg v hv, rfl, rfl,
+   by intro k sa sb h; simp [St.init] at h⟩
 
 /-- a mutation of a result cell acts on the result lists only -/
 theorem mutate_sim (a : St Store Bytes) (b : St (List V) V) (hr : Rel c fp a b) (r : Nat) (fn : V → Option V) :
@@ -110,7 +127,7 @@ theorem mutate_sim (a : St Store Bytes) (b : St (List V) V) (hr : Rel c fp a b) 
       | none => exact ⟨a, b, .na, by simp [hfn], by simp [hfn], hr⟩
       | some v' =>
         refine ⟨{ a with results := a.results.set r (some v') }, { b with results := a.results.set r (some v') }, .ok,
-          by simp only [hfn], by simp only [hfn], ⟨rfl, hr.mlen, hr.len, ?_⟩⟩
+          by simp only [hfn], by simp only [hfn], ⟨rfl, hr.vals, hr.good, hr.mlen, hr.len, ?_⟩⟩
         intro k sa sb h1 h2
         exact hr.slot k sa sb h1 h2
 
@@ -130,47 +147,50 @@ theorem slot_pair (a : St Store Bytes) (b : St (List V) V) (hr : Rel c fp a b) (
     have hs' : ¬ s < b.slots.length := hr.len ▸ hs
     exact ⟨List.getElem?_eq_none (Nat.le_of_not_lt hs), List.getElem?_eq_none (Nat.le_of_not_lt hs')⟩
 
-theorem enc_sim (vals : List V) (hg : ∀ v ∈ vals, Good c fp v) (a : St Store Bytes) (b : St (List V) V)
+theorem enc_sim (a : St Store Bytes) (b : St (List V) V)
     (hr : Rel c fp a b) (f : Fmt) (ip i : Nat) :
-    Sim c fp (step (machine c fp) vals a (.enc f ip i)) (step valueMachine vals b (.enc f ip i)) := by
-  by_cases hip : ip > 1
-  · left; simp [step, hip]
-  · cases hv : vals[i]? with
-    | none => left; simp [step, hip, hv]
-    | some v =>
-      right
-      have hgv := hg v (List.mem_of_getElem? hv)
-      obtain ⟨bts, hb, _⟩ := hgv f
-      refine ⟨{ a with m := a.m ++ [encBytes c f v], slots := a.slots ++ [⟨f, a.m.length, encBytes c f v, false⟩] },
-              { b with m := b.m ++ [v], slots := b.slots ++ [⟨f, b.m.length, some v, false⟩] }, .ok, ?_, ?_, ?_⟩
-      · simp [step, hip, hv, machine, hb]
-      · simp [step, hip, hv, valueMachine]
-      · refine ⟨hr.results, by simp [hr.mlen], by simp [hr.len], ?_⟩
-        intro k sa sb h1 h2
-        by_cases hk : k < a.slots.length
-        · have hk' : k < b.slots.length := hr.len ▸ hk
-          simp only [List.getElem?_append_left hk] at h1
-          simp only [List.getElem?_append_left hk'] at h2
-          exact slotRel_mono c fp _ _ (hr.slot k sa sb h1 h2)
-        · have hk1 : k = a.slots.length := by
-            have := (List.getElem?_eq_some_iff.mp h1).1
-            simp at this; omega
-          have hk2 : k = b.slots.length := hr.len ▸ hk1
-          have e1 : sa = ⟨f, a.m.length, encBytes c f v, false⟩ := by
-            rw [hk1] at h1; simpa using h1.symm
-          have e2 : sb = ⟨f, b.m.length, some v, false⟩ := by
-            rw [hk2] at h2; simpa using h2.symm
-          subst e1; subst e2
-          exact ⟨rfl, hr.mlen, rfl, v, hgv, by simp, rfl, by simp, rfl⟩
+    Sim c fp (step (machine c fp) a (.enc f ip i)) (step valueMachine b (.enc f ip i)) := by
+  cases hv : (a.vals[ip]?).bind (·[i]?) with
+  | none => left; simp [step, ← hr.vals, hv]
+  | some v =>
+    right
+    have hgv : Good c fp v := by
+      cases hl : a.vals[ip]? with
+      | none => simp [hl] at hv
+      | some l =>
+        simp only [hl, Option.bind_some] at hv
+        exact (hr.good l (List.mem_of_getElem? hl) v (List.mem_of_getElem? hv)).1
+    obtain ⟨bts, hb, _⟩ := hgv f
+    refine ⟨{ a with m := a.m ++ [encBytes c f v], slots := a.slots ++ [⟨f, a.m.length, encBytes c f v, false⟩] },
+            { b with m := b.m ++ [v], slots := b.slots ++ [⟨f, b.m.length, some v, false⟩] }, .ok, ?_, ?_, ?_⟩
+    · simp [step, hv, machine, hb]
+    · simp [step, ← hr.vals, hv, valueMachine]
+    · refine ⟨hr.results, hr.vals, hr.good, by simp [hr.mlen], by simp [hr.len], ?_⟩
+      intro k sa sb h1 h2
+      by_cases hk : k < a.slots.length
+      · have hk' : k < b.slots.length := hr.len ▸ hk
+        simp only [List.getElem?_append_left hk] at h1
+        simp only [List.getElem?_append_left hk'] at h2
+        exact slotRel_mono c fp _ _ (hr.slot k sa sb h1 h2)
+      · have hk1 : k = a.slots.length := by
+          have := (List.getElem?_eq_some_iff.mp h1).1
+          simp at this; omega
+        have hk2 : k = b.slots.length := hr.len ▸ hk1
+        have e1 : sa = ⟨f, a.m.length, encBytes c f v, false⟩ := by
+          rw [hk1] at h1; simpa using h1.symm
+        have e2 : sb = ⟨f, b.m.length, some v, false⟩ := by
+          rw [hk2] at h2; simpa using h2.symm
+        subst e1; subst e2
+        exact ⟨rfl, hr.mlen, rfl, v, hgv, by simp, rfl, by simp, rfl⟩
 
 /-- appending a result cell on both sides keeps the relation -/
 theorem rel_push (a : St Store Bytes) (b : St (List V) V) (hr : Rel c fp a b) (r : Option V) :
     Rel c fp { a with results := a.results ++ [r] } { b with results := b.results ++ [r] } :=
-  ⟨by simp [hr.results], hr.mlen, hr.len, hr.slot⟩
+  ⟨by simp [hr.results], hr.vals, hr.good, hr.mlen, hr.len, hr.slot⟩
 
-theorem dec_sim (vals : List V) (a : St Store Bytes) (b : St (List V) V)
+theorem dec_sim (a : St Store Bytes) (b : St (List V) V)
     (hr : Rel c fp a b) (ip s : Nat) :
-    Sim c fp (step (machine c fp) vals a (.dec ip s)) (step valueMachine vals b (.dec ip s)) := by
+    Sim c fp (step (machine c fp) a (.dec ip s)) (step valueMachine b (.dec ip s)) := by
   by_cases hip : ip > 1
   · left; simp [step, hip]
   · rcases slot_pair c fp a b hr s with ⟨h1, h2⟩ | ⟨sa, sb, h1, h2, hf, hh, hd, v, hg, hbv, hsb, hav, hsa⟩
@@ -198,9 +218,9 @@ theorem dec_sim (vals : List V) (a : St Store Bytes) (b : St (List V) V)
           · simp [step, hip, h1, hdead, hsa, hb, hgj, hd1]
           · simp [step, hip, h2, hdead', hsb, hgj', hd2]
 
-theorem stable_sim (vals : List V) (a : St Store Bytes) (b : St (List V) V)
+theorem stable_sim (a : St Store Bytes) (b : St (List V) V)
     (hr : Rel c fp a b) (s : Nat) :
-    Sim c fp (step (machine c fp) vals a (.stable s)) (step valueMachine vals b (.stable s)) := by
+    Sim c fp (step (machine c fp) a (.stable s)) (step valueMachine b (.stable s)) := by
   rcases slot_pair c fp a b hr s with ⟨h1, h2⟩ | ⟨sa, sb, h1, h2, hf, hh, hd, v, hg, hbv, hsb, hav, hsa⟩
   · left; simp [step, h1, h2]
   · right
@@ -214,14 +234,14 @@ theorem stable_sim (vals : List V) (a : St Store Bytes) (b : St (List V) V)
       · simp [step, h1, hdead, hsa, hb, hra, machine]
       · simp [step, h2, hdead', hsb, hbv, valueMachine]
 
-theorem clobber_sim (vals : List V) (a : St Store Bytes) (b : St (List V) V)
+theorem clobber_sim (a : St Store Bytes) (b : St (List V) V)
     (hr : Rel c fp a b) (s : Nat) :
-    Sim c fp (step (machine c fp) vals a (.clobber s)) (step valueMachine vals b (.clobber s)) := by
+    Sim c fp (step (machine c fp) a (.clobber s)) (step valueMachine b (.clobber s)) := by
   rcases slot_pair c fp a b hr s with ⟨h1, h2⟩ | ⟨sa, sb, h1, h2, hsr⟩
   · left; simp [step, h1, h2]
   · right
     refine ⟨{ a with slots := a.slots.set s { sa with dead := true } }, { b with slots := b.slots.set s { sb with dead := true } },
-      .ok, by simp [step, h1], by simp [step, h2], ⟨hr.results, hr.mlen, by simp [hr.len], ?_⟩⟩
+      .ok, by simp [step, h1], by simp [step, h2], ⟨hr.results, hr.vals, hr.good, hr.mlen, by simp [hr.len], ?_⟩⟩
     intro k ka kb hk1 hk2
     by_cases hks : s = k
     · subst hks
@@ -235,9 +255,9 @@ theorem clobber_sim (vals : List V) (a : St Store Bytes) (b : St (List V) V)
     · simp only [List.getElem?_set_ne hks] at hk1 hk2
       exact hr.slot k ka kb hk1 hk2
 
-theorem show_sim (vals : List V) (a : St Store Bytes) (b : St (List V) V)
+theorem show_sim (a : St Store Bytes) (b : St (List V) V)
     (hr : Rel c fp a b) (r : Nat) :
-    Sim c fp (step (machine c fp) vals a (.show r)) (step valueMachine vals b (.show r)) := by
+    Sim c fp (step (machine c fp) a (.show r)) (step valueMachine b (.show r)) := by
   simp only [step, ← hr.results]
   cases hres : a.results[r]? with
   | none => left; exact ⟨rfl, rfl⟩
@@ -247,28 +267,51 @@ theorem show_sim (vals : List V) (a : St Store Bytes) (b : St (List V) V)
     | none => exact ⟨a, b, .na, rfl, rfl, hr⟩
     | some v => exact ⟨a, b, .val v, rfl, rfl, hr⟩
 
+theorem setVal_sim (a : St Store Bytes) (b : St (List V) V) (hr : Rel c fp a b) (ip i : Nat) :
+    Sim c fp (step (machine c fp) a (.setVal ip i)) (step valueMachine b (.setVal ip i)) := by
+  simp only [step, ← hr.vals]
+  cases hl : a.vals[ip]? with
+  | none => left; exact ⟨rfl, rfl⟩
+  | some l =>
+    cases hv : l[i]? with
+    | none => left; exact ⟨by simp [hv], by simp [hv]⟩
+    | some v =>
+      right
+      cases hs : setFirstV v with
+      | none => exact ⟨a, b, .na, by simp [hv, hs], by simp [hv, hs], hr⟩
+      | some v' =>
+        refine ⟨{ a with vals := a.vals.set ip (l.set i v') }, { b with vals := a.vals.set ip (l.set i v') }, .ok,
+          by simp [hv, hs], by simp [hv, hs], ⟨hr.results, rfl, ?_, hr.mlen, hr.len, hr.slot⟩⟩
+        intro l2 hl2 w hw
+        rcases List.mem_or_eq_of_mem_set hl2 with hin | rfl
+        · exact hr.good l2 hin w hw
+        · rcases List.mem_or_eq_of_mem_set hw with hin | rfl
+          · exact hr.good l (List.mem_of_getElem? hl) w hin
+          · exact goodC_setFirst c fp (hr.good l (List.mem_of_getElem? hl) v (List.mem_of_getElem? hv)) hs
+
 /-- one step of any history: the store model and the reference machine answer the same -/
-theorem step_sim (vals : List V) (hg : ∀ v ∈ vals, Good c fp v) (a : St Store Bytes) (b : St (List V) V)
+theorem step_sim (a : St Store Bytes) (b : St (List V) V)
     (hr : Rel c fp a b) (s : Step) :
-    Sim c fp (step (machine c fp) vals a s) (step valueMachine vals b s) := by
+    Sim c fp (step (machine c fp) a s) (step valueMachine b s) := by
   cases s with
-  | enc f ip i => exact enc_sim c fp vals hg a b hr f ip i
-  | dec ip s => exact dec_sim c fp vals a b hr ip s
-  | stable s => exact stable_sim c fp vals a b hr s
-  | clobber s => exact clobber_sim c fp vals a b hr s
+  | enc f ip i => exact enc_sim c fp a b hr f ip i
+  | dec ip s => exact dec_sim c fp a b hr ip s
+  | stable s => exact stable_sim c fp a b hr s
+  | clobber s => exact clobber_sim c fp a b hr s
   | setFirst r => exact mutate_sim c fp a b hr r setFirstV
   | setInner r => exact mutate_sim c fp a b hr r setInnerV
   | addKey r => exact mutate_sim c fp a b hr r (addKeyV r)
-  | «show» r => exact show_sim c fp vals a b hr r
+  | «show» r => exact show_sim c fp a b hr r
+  | setVal ip i => exact setVal_sim c fp a b hr ip i
 
-theorem runFrom_sim (vals : List V) (hg : ∀ v ∈ vals, Good c fp v) (steps : List Step) :
+theorem runFrom_sim (steps : List Step) :
     ∀ (a : St Store Bytes) (b : St (List V) V), Rel c fp a b →
-      runFrom (machine c fp) vals a steps = runFrom valueMachine vals b steps := by
+      runFrom (machine c fp) a steps = runFrom valueMachine b steps := by
   induction steps with
   | nil => intro a b _; rfl
   | cons s r ih =>
     intro a b hr
-    rcases step_sim c fp vals hg a b hr s with ⟨h1, h2⟩ | ⟨a', b', o, h1, h2, hr'⟩
+    rcases step_sim c fp a b hr s with ⟨h1, h2⟩ | ⟨a', b', o, h1, h2, hr'⟩
     · simp [runFrom, h1, h2]
     · simp [runFrom, h1, h2, ih a' b' hr']
 
